@@ -43,8 +43,11 @@ class SerializeTraits<::std::vector<T, A>>
   static bool deserialize(CodedInputStream& is, Value& value) noexcept {
     if CONSTEXPR_SINCE_CXX17 (::std::is_same<float, T>::value ||
                               ::std::is_same<double, T>::value) {
-      auto num = static_cast<size_t>(is.BytesUntilLimit()) / sizeof(T);
-      value.reserve(value.size() + num);
+      // BytesUntilLimit is -1 when the stream has no limit at all
+      auto remaining = is.BytesUntilLimit();
+      if (remaining > 0) {
+        value.reserve(value.size() + static_cast<size_t>(remaining) / sizeof(T));
+      }
     }
 
     while (is.BytesUntilLimit() > 0) {
